@@ -42,7 +42,7 @@ WEIGHTS.update({"conj": 3, "transpose": 4, "copy": 3, "fuse": 3.5, "unfuse": 3, 
 
 
 def budget(tier):
-    return 1500 if tier == "quick" else 30000
+    return 3000 if tier == "quick" else 30000
 
 
 # ---- C15-specific ops ---------------------------------------------------------------------------------
